@@ -449,6 +449,13 @@ def cotangent_factory(quick, seed):
                              lambda x, c: c[0]["a"] * onp.cos(x) + c[0]["b"] * 2 * x + c[1] * (onp.cos(x) * x ** 2 + onp.sin(x) * 2 * x)),
         "dict(d, item)": (lambda x: (lambda d: ab.dict(d=d, item=d["v"]))(ab.dict({"u": x * 2.0, "v": np.cos(x)})),
                           lambda x, c: c["d"]["u"] * 2.0 - (c["d"]["v"] + c["item"]) * onp.sin(x)),
+        # one tuple value consumed by four dense users (three concatenations and itself): four container cotangents are accumulated
+        "tuple extended thrice": (lambda x: (lambda t: ab.tuple((t + ab.tuple((x,)), t + ab.tuple((2.0 * x,)), ab.tuple((3.0 * x,)) + t, t)))(ab.tuple((x * x, np.sin(x)))),
+                                  lambda x, c: (c[0][0] + c[1][0] + c[2][1] + c[3][0]) * 2 * x + (c[0][1] + c[1][1] + c[2][2] + c[3][1]) * onp.cos(x)
+                                  + c[0][2] + 2.0 * c[1][2] + 3.0 * c[2][0]),
+        "list extended thrice": (lambda x: (lambda t: ab.list([t + [x], t + [2.0 * x], t + [3.0 * x], t + [4.0 * x]]))(ab.list([x * x, np.sin(x)])),
+                                 lambda x, c: sum(c[k][0] for k in range(4)) * 2 * x + sum(c[k][1] for k in range(4)) * onp.cos(x)
+                                 + c[0][2] + 2.0 * c[1][2] + 3.0 * c[2][2] + 4.0 * c[3][2]),
         "list": (lambda x: ab.list([x, x * x, np.sin(x)]), lambda x, c: c[0] + c[1] * 2 * x + c[2] * onp.cos(x)),
         "dict of tuples": (lambda x: ab.dict(u=ab.tuple((x, 2 * x)), v=x ** 2), lambda x, c: c["u"][0] + 2 * c["u"][1] + c["v"] * 2 * x),
     }
